@@ -91,6 +91,10 @@ func (m *Machine) lsliceOp(x LSlice, lo, hi, max *Term) Value {
 		}
 	}
 	nl := c.Bin(OSub, hi, lo)
+	if nl.IsConst() && uint64(len(head)) >= nl.C && lo.IsConst() && hi.IsConst() {
+		// entirely inside the tracked prefix: an ordinary slice sharing the same cells
+		return Slice{V: head[:nl.C:nl.C]}
+	}
 	if !nl.IsConst() {
 		// implied by lo <= hi <= cap <= 2^40; stated so that the range oracle sees it
 		m.pc = append(m.pc, c.Cmp(OULe, nl, c.BV(lsliceMax, 64)))
